@@ -1,9 +1,10 @@
 (* C01 — property theorems (statements only; proofs in Proofs*.v).
    Carrier: the reals (C01/ModelR.v); S ranges over all interpretations of the
    special functions. *)
-From Coq Require Import Reals ZArith List Lra Lia.
+From Coq Require Import Reals ZArith QArith Qreals List Lra Lia.
 From Coquelicot Require Import Coquelicot.
-From ADV Require Import Base.Fl Base.Num C01.Model C01.ModelR C01.Spec C01.ProofsComb C01.ProofsCoef C01.ProofsJet C01.ProofsRefuted.
+From ADV Require Import Base.Fl Base.Num C01.Model C01.ModelR C01.Spec C01.ProofsComb C01.ProofsCoef C01.ProofsJet C01.ProofsRefuted
+     C01.ProofsStore C01.ProofsOps C01.ProofsSound C01.ProofsChain2 C01.ProofsProg.
 Import ListNotations.
 Open Scope R_scope.
 
@@ -105,9 +106,215 @@ Theorem concrete_abs_is_generic_abs : forall S c a (s : St),
   do_ABS_concrete (FlR S) idR c a s = do_abs (FlR S) idR c a s.
 Proof. exact abs_concrete_is_abs. Qed.
 
+(* ------------------------------------------------------------------ round 2 *)
+
+(* (S2) Reset / SetFloat64 leave EVERY derivative slot of the receiver zero — the full square of the
+   Hessian, upper and lower triangle — whatever its gradient / Hessian storage held before (a reused
+   register with stale content), for every N and order. *)
+Theorem reset_zeroes_every_slot : forall S c (s : St), wf (s c) ->
+  exists s', do_reset (FlR S) c s = Ok s' /\ (forall q, q <> c -> s' q = s q) /\
+    wf (s' c) /\ rk (s' c) = rk (s c) /\ rval (s' c) = 0 /\ rorder (s' c) = rorder (s c) /\ rn (s' c) = rn (s c) /\
+    (forall i, gd (FlR S) (s' c) i = 0) /\ (forall i j, gh (FlR S) (s' c) i j = 0).
+Proof. exact reset_clears_all_slots. Qed.
+Theorem setfloat_zeroes_every_slot : forall S c v (s : St), wf (s c) ->
+  exists s', do_setf (FlR S) idR c v s = Ok s' /\ (forall q, q <> c -> s' q = s q) /\
+    wf (s' c) /\ rk (s' c) = rk (s c) /\ rval (s' c) = v /\ rorder (s' c) = rorder (s c) /\ rn (s' c) = rn (s c) /\
+    (forall i, gd (FlR S) (s' c) i = 0) /\ (forall i j, gh (FlR S) (s' c) i j = 0).
+Proof. exact setfloat_clears_all_slots. Qed.
+Example reset_hyps_nontrivial :   (* a receiver whose storage is full of stale, non-symmetric content *)
+  wf (mkReg K64 7 2 2 [3; -5] [[1; 2]; [30; 4]]).
+Proof. split; intros _; cbn; [reflexivity|]. split; [reflexivity|]. intros [|[|i]] H; cbn; try reflexivity. lia. Qed.
+
+(* Set (HEAD d9fca78): the receiver is reallocated whenever N or Order differ and ends up with the
+   operand's value, order, N and every gradient / Hessian slot — never a panic on well-formed registers. *)
+Theorem set_copies_the_jet : forall S c b (s : St),
+  wf (s c) -> wf (rd s b) -> not_reg b c ->
+  exists s', set_reg (FlR S) idR c b s = Ok s' /\ frame c s s' /\ rk (s' c) = rk (s c) /\
+    wf (s' c) /\ rval (s' c) = rval (rd s b) /\ rorder (s' c) = rorder (rd s b) /\ rn (s' c) = rn (rd s b) /\
+    (forall i, gd (FlR S) (s' c) i = gd (FlR S) (rd s b) i) /\ (forall i j, gh (FlR S) (s' c) i j = gh (FlR S) (rd s b) i j).
+Proof. exact set_reg_spec. Qed.
+
+(* one instruction on represented operands (rep = well-formed, symmetric, magic of order o over n
+   variables OR a constant / plain operand; jets = value, gradient, Hessian): table operations,
+   Pow with a constant and with a magic exponent, SetVariable *)
+Theorem step_monadic : forall S n o op c a (s : St) A,
+  wf (s c) -> rep S n o (rd s a) A ->
+  exists s', do_mon (FlR S) idR op c a s = Ok s' /\ frame c s s' /\ rk (s' c) = rk (s c) /\
+    rep S n o (s' c) (jmon (m_v0 (FlR S) op (jv A)) (m_f1 (FlR S) op (jv A)) (m_f2 (FlR S) op (jv A)) A) /\
+    rorder (s' c) = rorder (rd s a) /\ rn (s' c) = rn (rd s a).
+Proof. exact rep_mon. Qed.
+Theorem step_dyadic : forall S n o op c a b (s : St) A B,
+  wf (s c) -> rep S n o (rd s a) A -> rep S n o (rd s b) B -> alloc_keeps c a b s ->
+  exists s', do_dy (FlR S) idR op c a b s = Ok s' /\ frame c s s' /\ rk (s' c) = rk (s c) /\
+    rep S n o (s' c) (jdy (d_v0 (FlR S) op (jv A) (jv B)) (d_f10 (FlR S) op (jv A) (jv B)) (d_f01 (FlR S) op (jv A) (jv B))
+                          (d_f11 (FlR S) op (jv A) (jv B)) (d_f20 (FlR S) op (jv A) (jv B)) (d_f02 (FlR S) op (jv A) (jv B)) A B) /\
+    rorder (s' c) = Nat.max (rorder (rd s a)) (rorder (rd s b)) /\ rn (s' c) = Nat.max (rn (rd s a)) (rn (rd s b)).
+Proof. exact rep_dy. Qed.
+Theorem step_pow_variable_exponent : forall S n o c a k (s : St) A K,
+  wf (s c) -> rep S n o (rd s a) A -> rep S n o (rd s k) K -> (1 <= rorder (rd s k))%nat -> alloc_keeps c a k s ->
+  exists s', do_pow (FlR S) idR c a k s = Ok s' /\ frame c s s' /\ rk (s' c) = rk (s c) /\
+    rep S n o (s' c) (jdy (d_v0 (FlR S) OPowV (jv A) (jv K)) (d_f10 (FlR S) OPowV (jv A) (jv K)) (d_f01 (FlR S) OPowV (jv A) (jv K))
+                          (d_f11 (FlR S) OPowV (jv A) (jv K)) (d_f20 (FlR S) OPowV (jv A) (jv K)) (d_f02 (FlR S) OPowV (jv A) (jv K)) A K) /\
+    rorder (s' c) = Nat.max (rorder (rd s a)) (rorder (rd s k)) /\ rn (s' c) = Nat.max (rn (rd s a)) (rn (rd s k)).
+Proof. exact rep_pow_var. Qed.
+Theorem step_set_variable : forall S n o c k (s : St),
+  (1 <= o)%nat -> (k < n)%nat -> (rn (s c) <> n \/ rorder (s c) <> o) ->
+  exists s', set_variable (FlR S) idR c k n o s = Ok s' /\ frame c s s' /\ rk (s' c) = rk (s c) /\
+             rep S n o (s' c) (jvar (rval (s c)) k).
+Proof. exact rep_setvar. Qed.
+
+(* (b) the two-argument chain rule: the dyadic / dyadicLazy formulas are the coordinate partial
+   derivatives of z |-> f (G z) (H z) for f differentiable in two variables *)
+Theorem chain_rule_two_arguments_first : forall (G H : (nat -> R) -> R) (f : R -> R -> R) y i dG dH f10 f01,
+  partial G i y dG -> partial H i y dH -> differentiable_pt_lim f (G y) (H y) f10 f01 ->
+  partial (fun z => f (G z) (H z)) i y (dG * f10 + dH * f01).
+Proof. exact chain2_first. Qed.
+Theorem chain_rule_two_arguments_second :
+  forall (G H Gi Hi : (nat -> R) -> R) (f10 f01 : R -> R -> R) y j dGj dHj ddGij ddHij f20 f11 f02,
+  partial G j y dGj -> partial H j y dHj -> partial Gi j y ddGij -> partial Hi j y ddHij ->
+  differentiable_pt_lim f10 (G y) (H y) f20 f11 -> differentiable_pt_lim f01 (G y) (H y) f11 f02 ->
+  partial (fun z => Gi z * f10 (G z) (H z) + Hi z * f01 (G z) (H z)) j y
+    (ddGij * f10 (G y) (H y) + ddHij * f01 (G y) (H y)
+     + Gi y * dGj * f20 + Hi y * dHj * f02 + Gi y * dHj * f11 + Hi y * dGj * f11).
+Proof. exact chain2_second. Qed.
+(* the five coefficients of every dyadic table entry — Add Sub Mul, Div (y <> 0), Pow with a VARIABLE
+   exponent (x > 0) — are the derivatives of value / d-da / d-db entries along every curve through (x, y) *)
+Theorem coefficients_dyadic_along_curves : forall S op x y,
+  match op with ODiv => y <> 0 | OPowV => 0 < x | _ => True end -> d_curve S op x y.
+Proof. exact d_curve_table. Qed.
+
+(* (c) ad_sound.  Programs = compiled expression trees in SSA-like register discipline (temporaries
+   n, n+1, .. may hold ANY well-formed stale content); variables seeded by Variables(order, x_0..x_{n-1}).
+   The result register holds the value; its gradient slots are the first partial derivatives of the denoted
+   function [den S e]; at order 2 its Hessian slots are the partial derivatives of the first partials, and
+   symmetric; slots of variables the expression does not mention are exactly 0.  Constants (EConst: a
+   ConstFloat64 / Float64 operand) carry the zero jet. *)
+Theorem compiled_program_computes_sem : forall S n o x e nx (s : St),
+  wfe n e -> (n <= nx)%nat ->
+  (forall k, (k < n)%nat -> rep S n o (s k) (jvar (x k) k)) ->
+  (forall q, (nx <= q)%nat -> wf (s q)) ->
+  exists s', run (FlR S) idR (fst (fst (compile e nx))) s = Ok s' /\
+    (nx <= snd (compile e nx))%nat /\
+    (forall q, (q < nx)%nat \/ (snd (compile e nx) <= q)%nat -> s' q = s q) /\
+    res_ok n nx (snd (compile e nx)) (snd (fst (compile e nx))) /\
+    rep S n o (rd s' (snd (fst (compile e nx)))) (sem S e x).
+Proof. exact compile_sound. Qed.
+Theorem sem_is_the_derivative : forall S e x, dom S e x ->
+  forall i, partial (den S e) i x (jg (sem S e x) i) /\
+            forall j, partial (fun y => jg (sem S e y) i) j x (jh (sem S e x) i j).
+Proof. exact D_correct. Qed.
+Theorem ad_sound : forall S n o e x (s : St),
+  (1 <= o)%nat -> wfe n e -> sdom S e x ->
+  (forall k, (k < n)%nat -> rorder (s k) = 0%nat /\ rval (s k) = x k) ->
+  (forall q, (n <= q)%nat -> wf (s q)) ->
+  exists s', run (FlR S) idR (vars_prog n o ++ fst (fst (compile e n))) s = Ok s' /\
+    let r := rd s' (snd (fst (compile e n))) in
+    rval r = den S e x /\
+    (forall i, (i < n)%nat -> partial (den S e) i x (gd (FlR S) r i)) /\
+    ((2 <= o)%nat -> forall i j, (i < n)%nat -> (j < n)%nat ->
+        partial (fun y => jg (sem S e y) i) j x (gh (FlR S) r i j) /\ gh (FlR S) r i j = gh (FlR S) r j i) /\
+    (forall i, (i < n)%nat -> gd (FlR S) r i = jg (sem S e x) i) /\
+    (forall k, (k < n)%nat -> ~ mentions e k ->
+        gd (FlR S) r k = 0 /\ ((2 <= o)%nat -> forall j, (j < n)%nat -> gh (FlR S) r k j = 0 /\ gh (FlR S) r j k = 0)).
+Proof. exact ad_sound_sdom. Qed.
+Theorem constants_contribute_no_derivative : forall S e v x i j,
+  jg (sem S (EDy OAdd e (EConst v)) x) i = jg (sem S e x) i /\ jh (sem S (EDy OAdd e (EConst v)) x) i j = jh (sem S e x) i j.
+Proof. exact sem_add_const. Qed.
+Example ad_sound_hyps_nontrivial :
+  wfe 3 ex_expr /\ sdom Sp0 ex_expr ex_point /\ mentions ex_expr 2 /\ ~ mentions (EMon OExp (EDy OMul (EVar 0) (EVar 1))) 2.
+Proof. exact ex_hyps. Qed.
+
+(* (a) composite programs: after the program the receiver represents the jet of the NAMED function of the
+   operand jets; lift1 f f' f'' A = (f(x), g_i f'(x), g_i g_j f''(x) + H_ij f'(x)) at x = value of A *)
+Theorem named_functions_derivatives : forall x,
+  (is_derive sigm x (sigm1 x) /\ is_derive sigm1 x (sigm2 x)) /\
+  (is_derive l1pe x (sigm x) /\ is_derive sigm x (sigm1 x)) /\
+  (is_derive l1pe3 x (l1pe3' x) /\ is_derive l1pe3' x (l1pe3'' x)).
+Proof. intro x. split; [apply sigm_derive|split; [apply l1pe_derive|apply l1pe3_derive]]. Qed.
+Theorem logistic_program : forall S n o c a (s : St) A,      (* any aliasing, incl. c.Logistic(c) *)
+  wf (s c) -> rep S n o (rd s a) A ->
+  exists s', do_logistic (FlR S) idR c a s = Ok s' /\ frame c s s' /\ rep S n o (s' c) (lift1 sigm sigm1 sigm2 A).
+Proof. exact logistic_jet. Qed.
+Theorem sigmoid_program : forall S n o c a t (s : St) A,     (* both sign branches *)
+  wf (s c) -> wf (s t) -> t <> c -> rep S n o (rd s a) A ->
+  exists s', do_sigmoid (FlR S) idR c a t s = Ok s' /\ (forall q, q <> c -> q <> t -> s' q = s q) /\
+             rep S n o (s' c) (lift1 sigm sigm1 sigm2 A).
+Proof. exact sigmoid_jet. Qed.
+(* Log1pExp: exp on x <= -37, EXACT ln(1+exp x) on (-37, 18], x + exp(-x) on (18, 33.3] (through the fresh
+   temporary of HEAD 7035970: correct for c.Log1pExp(c) too), the identity above; the coefficient errors of
+   the three approximating branches are bounded below (value: C02_log1pexp_error_bound of coq/C02) *)
+Theorem log1pexp_program : forall S n o c a (s : St) A,
+  wf (s c) -> rep S n o (rd s a) A ->
+  (Rleb (jv A) (Q2R (333 # 10)%Q) = false -> not_reg a c) ->
+  exists s', do_log1pexp (FlR S) idR c a s = Ok s' /\ frame c s s' /\ rep S n o (s' c) (log1pexp_branch_jet A).
+Proof. exact log1pexp_jet. Qed.
+Theorem log1pexp_branch_errors : forall x,
+  (x <= -37 -> 0 <= exp x - sigm x <= exp (2 * x)) /\ 0 <= sigm x - l1pe3' x <= exp (- (2 * x)) /\ 0 <= 1 - sigm x <= exp (- x).
+Proof. intro x. split; [apply log1pexp_branch1_coeff|split; [apply log1pexp_branch3_coeff|apply log1pexp_branch4_coeff]]. Qed.
+Theorem sqrt_program : forall S n o c a (s : St) A,          (* Sqrt = Pow(a, 0.5) *)
+  wf (s c) -> rep S n o (rd s a) A -> 0 < jv A ->
+  exists s', do_sqrt (FlR S) idR c a s = Ok s' /\ frame c s s' /\
+    rep S n o (s' c) (lift1 sqrt (fun x => / (2 * sqrt x)) (fun x => - / (4 * x * sqrt x)) A).
+Proof. exact sqrt_jet. Qed.
+Theorem abs_program : forall S n o c a (s : St) A,           (* Abs off 0; the concrete ABS is the same program *)
+  wf (s c) -> rep S n o (rd s a) A -> jv A <> 0 -> (0 < jv A -> not_reg a c) ->
+  exists s', do_abs (FlR S) idR c a s = Ok s' /\ frame c s s' /\
+    rep S n o (s' c) (lift1 Rabs (fun x => if Rlt_dec x 0 then -1 else 1) (fun _ => 0) A).
+Proof. exact abs_jet. Qed.
+Theorem min_program : forall S n o c a b (s : St) A B,
+  wf (s c) -> rk (s c) = K64 -> rep S n o (rd s a) A -> rep S n o (rd s b) B -> not_reg a c -> not_reg b c ->
+  exists s', do_min (FlR S) idR c a b s = Ok s' /\ frame c s s' /\ rep S n o (s' c) (if Rlt_dec (jv A) (jv B) then A else B).
+Proof. exact min_jet. Qed.
+Theorem max_program : forall S n o c a b (s : St) A B,
+  wf (s c) -> rk (s c) = K64 -> rep S n o (rd s a) A -> rep S n o (rd s b) B -> not_reg a c -> not_reg b c ->
+  exists s', do_max (FlR S) idR c a b s = Ok s' /\ frame c s s' /\ rep S n o (s' c) (if Rlt_dec (jv B) (jv A) then A else B).
+Proof. exact max_jet. Qed.
+Theorem logadd_program : forall S n o c a b t (s : St) A B,  (* ln(exp x + exp y): value, sigm(x-y), sigm(y-x), -w, w, w *)
+  wf (s c) -> wf (s t) -> t <> c -> not_reg a t -> not_reg b t -> not_reg a c -> not_reg b c ->
+  rep S n o (rd s a) A -> rep S n o (rd s b) B ->
+  exists s', do_logadd (FlR S) idR c a b t s = Ok s' /\ (forall q, q <> c -> q <> t -> s' q = s q) /\
+    rep S n o (s' c) (if Rlt_dec (jv B) (jv A) then logadd_jet B A else logadd_jet A B).
+Proof. exact logadd_jet_thm. Qed.
+Theorem logsub_program : forall S n o c a b t (s : St) A B,  (* ln(exp x - exp y), y < x *)
+  wf (s c) -> wf (s t) -> t <> c -> not_reg a t -> not_reg b t -> not_reg a c ->
+  rep S n o (rd s a) A -> rep S n o (rd s b) B -> jv B < jv A ->
+  exists s', do_logsub (FlR S) idR c a b t s = Ok s' /\ (forall q, q <> c -> q <> t -> s' q = s q) /\
+    rep S n o (s' c) (logsub_jet A B).
+Proof. exact logsub_jet_thm. Qed.
+(* the -Inf short cuts, for every carrier (binary64 included): LogSub(a, -Inf) = Set(a); LogAdd with the smaller operand infinite = Set(b) *)
+Theorem logsub_neg_inf_is_set : forall T (Fl0 : Fl T) r32 c a b t (s : St),
+  fisinf Fl0 (rval (rd s b)) (-1) = true -> do_logsub Fl0 r32 c a b t s = set_reg Fl0 r32 c a s.
+Proof. exact @logsub_neg_inf_shortcut. Qed.
+Theorem logadd_inf_is_set : forall T (Fl0 : Fl T) r32 c a b t (s : St),
+  fltb Fl0 (rndk r32 (rk (rd s a)) (rval (rd s b))) (rndk r32 (rk (rd s a)) (rval (rd s a))) = false ->
+  is_inf Fl0 (rval (rd s a)) = true -> do_logadd Fl0 r32 c a b t s = set_reg Fl0 r32 c b s.
+Proof. exact @logadd_inf_shortcut. Qed.
+(* reductions on a REUSED accumulator (same N and order as the computation, arbitrary stale content) *)
+Theorem mtrace_program : forall S n o r diag Js (s : St),
+  wf (s r) -> rorder (s r) = o -> rn (s r) = n ->
+  Forall2 (fun x J => rep S n o (rd s x) J /\ not_reg x r) diag Js ->
+  exists s', do_mtrace (FlR S) idR r diag s = Ok s' /\ frame r s s' /\ rep S n o (s' r) (fold_left (jadd S) Js (jconst 0)).
+Proof. exact mtrace_jet. Qed.
+Theorem vmean_program : forall S n o r xs Js (s : St),
+  wf (s r) -> rorder (s r) = o -> rn (s r) = n -> xs <> [] ->
+  Forall2 (fun x J => rep S n o (rd s x) J /\ not_reg x r) xs Js ->
+  exists s', do_vmean (FlR S) idR r xs s = Ok s' /\ frame r s s' /\
+    exists M, rep S n o (s' r) M /\ let T := fold_left (jadd S) Js (jconst 0) in let N := INR (length xs) in
+      jv M = jv T / N /\ ((1 <= o)%nat -> forall i, (i < n)%nat -> jg M i = jg T i / N) /\
+      ((2 <= o)%nat -> forall i j, (i < n)%nat -> (j < n)%nat -> jh M i j = jh T i j / N).
+Proof. exact vmean_jet. Qed.
+Theorem jadd_is_slotwise_sum : forall S A B,
+  jv (jadd S A B) = jv A + jv B /\ (forall i, jg (jadd S A B) i = jg A i + jg B i) /\
+  (forall i j, jh (jadd S A B) i j = jh A i j + jh B i j).
+Proof. exact jadd_slots. Qed.
+
 (* Not proved (stated for the record):
-   ad_sound_partial — soundness of whole expression trees by structural induction from
-     monadic_jet_algebra + dyadic_jet_algebra + coefficients_* + chain_rule_*: the induction step is what
-     these theorems give for one operation; the induction itself, the composite programs (Sigmoid, LogAdd,
-     Log1pExp per branch, SmoothMax, Vnorm ...) and the variable-exponent Pow / LogErfc / Mlgamma / GammaP /
-     Bessel coefficient lemmas are tied by the correspondence run only. *)
+   composite_rest_partial — SmoothMax, LogSmoothMax, VdotV, Vnorm, Mnorm have no Coq statement (their loops are
+     accumulate + one Mul / Pow step per element: same pattern as mtrace_program); Mtrace / Vmean are proved for an
+     accumulator that already has the computation's N and order (a reused register) — a FRESH receiver (order 0) is
+     reallocated by AllocForTwo inside r.Add(r, x), a case dyadic_jet_algebra excludes (alloc_keeps; F-ALLOC of C08).
+   ad_sound covers expression TREES compiled to SSA register programs over IMon / IDy (all table operations, Pow with
+     constant exponent as OPowC and with a magic exponent as OPowV); composite instructions as tree nodes and DAG
+     sharing of a sub-result by two parents (covered by the frame clauses of compiled_program_computes_sem only
+     informally) are not part of the expr type.
+   LogErfc / Mlgamma / GammaP / Bessel coefficient lemmas: correspondence and certificates only. *)
